@@ -1,0 +1,47 @@
+//go:build verif
+
+// Contracts for the deductive verifier under /verif (gvc). This file contains no
+// declarations: it is comment-only and excluded from normal builds by the tag.
+
+package typecheck
+
+// ---- C18: applicability of a function to a slice type, stated independently of the loops that decide it ----
+
+// A non-variadic function func(a1..an) applies to Slice<t1..tm> iff m == n and every ti is assignable to ai.
+// A variadic function func(a1..a(n-1), v ...e) applies iff m >= n-1, the first n-1 columns are assignable to their
+// parameters and every further column is assignable to the element type e.
+//@ spec func canApplySpec(fn slicefunc.Func, arg slicetype.Type) bool = ite(fn.IsVariadic, tyNumOut(arg) >= tyNumOut(fn.In) - 1 && forall(i, 0, tyNumOut(fn.In) - 1, rtAssignable(tyOut(arg, i), tyOut(fn.In, i))) && forall(i, tyNumOut(fn.In) - 1, tyNumOut(arg), rtAssignable(tyOut(arg, i), rtElem(tyOut(fn.In, tyNumOut(fn.In) - 1)))), tyNumOut(arg) == tyNumOut(fn.In) && forall(i, 0, tyNumOut(arg), rtAssignable(tyOut(arg, i), tyOut(fn.In, i))))
+
+//@ func typecheck.CanApply (fn, arg) (ok)
+//@   requires fn.In != nil && arg != nil
+//@   requires variadic-shape: implies(fn.IsVariadic, tyNumOut(fn.In) >= 1 && rtKind(tyOut(fn.In, tyNumOut(fn.In) - 1)) == reflect.Slice)
+//@   ensures  decides: ok == canApplySpec(fn, arg)
+//@   modifies nothing
+//@   loop 1 invariant 0 <= i && i <= tyNumOut(fn.In) - 1 && forall(j, 0, i, rtAssignable(tyOut(arg, j), tyOut(fn.In, j)))
+//@   loop 2 invariant tyNumOut(fn.In) - 1 <= i && i <= tyNumOut(arg) && forall(j, tyNumOut(fn.In) - 1, i, rtAssignable(tyOut(arg, j), variadicType))
+//@   loop 3 invariant 0 <= i && i <= tyNumOut(fn.In) && forall(j, 0, i, rtAssignable(tyOut(arg, j), tyOut(fn.In, j)))
+
+//@ spec func sameColumns(a, b slicetype.Type) bool = tyNumOut(a) == tyNumOut(b) && forall(i, 0, tyNumOut(a), tyOut(a, i) == tyOut(b, i))
+
+//@ func typecheck.Equal (expect, actual) (ok)
+//@   requires expect != nil && actual != nil
+//@   ensures  decides: ok == sameColumns(expect, actual)
+//@   modifies nothing
+//@   loop 1 invariant 0 <= i && i <= tyNumOut(expect) && forall(j, 0, i, tyOut(actual, j) == tyOut(expect, j))
+
+//@ spec func vectorized(t slicetype.Type) bool = forall(i, 0, tyNumOut(t), rtKind(tyOut(t, i)) == reflect.Slice)
+
+//@ func typecheck.Devectorize (typ) (out, ok)
+//@   requires typ != nil
+//@   ensures  decides: ok == vectorized(typ)
+//@   ensures  columns: implies(ok, out != nil && tyNumOut(out) == tyNumOut(typ) && forall(i, 0, tyNumOut(typ), tyOut(out, i) == rtElem(tyOut(typ, i))))
+//@   ensures  rejected: implies(!ok, out == nil)
+//@   modifies nothing
+//@   loop 1 invariant 0 <= i && i <= tyNumOut(typ) && len(elems) == tyNumOut(typ) && fresh(elems) && forall(j, 0, i, rtKind(tyOut(typ, j)) == reflect.Slice && elems[j] == rtElem(tyOut(typ, j)))
+
+//@ func typecheck.Slices (columns) (out, ok)
+//@   ensures  decides: ok == forall(i, 0, len(columns), columns[i] != nil && rtKind(dynRType(columns[i])) == reflect.Slice)
+//@   ensures  columns: implies(ok, out != nil && tyNumOut(out) == len(columns) && forall(i, 0, len(columns), tyOut(out, i) == rtElem(dynRType(columns[i]))))
+//@   ensures  rejected: implies(!ok, out == nil)
+//@   modifies nothing
+//@   loop 1 invariant len(types) == len(columns) && fresh(types) && forall(j, 0, range_idx, columns[j] != nil && rtKind(dynRType(columns[j])) == reflect.Slice && types[j] == rtElem(dynRType(columns[j])))
